@@ -119,13 +119,14 @@ DefsForge == {Def("none", Ds([i \in 1..n |-> {}]), <<>>) : n \in 1..3}
                    Def("none", Ds(<<gA, gA, gB>>), <<From(Shp("pick", {}, {1}, {2}), "A"), From(All, "B")>>)}
 WalletsForge == {<<C1>>, <<C1j>>, <<C1, C2>>, <<C2, C1>>, <<C12>>, <<C1, C2, C3>>, <<C3, C2, C1j>>, <<Cx, C1, C3>>}
 
-MCDefsOf(f) == CASE f = "filters" -> DefsFilters [] f = "format" -> DefsFormat [] f = "reqs" -> DefsReqs [] f = "forge" -> DefsForge
-MCWalletsOf(f) == CASE f = "filters" -> WalletsFilters [] f = "format" -> WalletsFormat [] f = "reqs" -> WalletsReqs [] f = "forge" -> WalletsForge
+\* family mini: one definition, one wallet -- vacuity guard (state graph dumped, every action must label an edge)
+MCDefsOf(f) == CASE f = "mini" -> {Def("none", Ds(<<{}, {}>>), <<>>)} [] f = "filters" -> DefsFilters [] f = "format" -> DefsFormat [] f = "reqs" -> DefsReqs [] f = "forge" -> DefsForge
+MCWalletsOf(f) == CASE f = "mini" -> {<<C1, C2>>} [] f = "filters" -> WalletsFilters [] f = "format" -> WalletsFormat [] f = "reqs" -> WalletsReqs [] f = "forge" -> WalletsForge
 AllShapes == {"ldp", "jwt", "ldp-arr", "jwt-arr", "ldp-arr2", "jwt-arr2"}
-MCShapesOf(f) == IF f = "forge" THEN AllShapes ELSE {"ldp"}
+MCShapesOf(f) == IF f = "forge" THEN AllShapes ELSE IF f = "mini" THEN {"ldp", "jwt-arr2"} ELSE {"ldp"}
 AllMutKinds == {"drop", "empty", "permute", "forge-path", "subject", "bad-path", "dup-shadow", "dup-trail", "dup-same", "surplus",
                 "wrong-format", "nested", "shape"}
-MCMutKindsOf(f) == IF f = "forge" THEN AllMutKinds ELSE {}
+MCMutKindsOf(f) == IF f \in {"forge", "mini"} THEN AllMutKinds ELSE {}
 \* envelope shapes the driver presents the wallet's own submission in
 EmitShapes(f) == IF f = "forge" THEN <<>> ELSE <<"ldp", "jwt", "ldp-arr", "jwt-arr">>
 
